@@ -43,7 +43,7 @@ PROPS = {
              'flag, gap, value/skip like the Python ones; generated union/struct encode and decode ladders agree; wire '
              'alignment is never taken from ABI alignment of composites; native overloads say native.',
              'byte equality between the Python and the C++ codec for all schemas and values; host endianness behaviour',
-             'clang type-resolved AST rules (byte-lane abstract interpretation), generator-template ladders, table agreement'),
+             'clang type-resolved AST rules (byte-lane abstract interpretation), generator-template ladders, table agreement', claimed=True),
     'C04': P('prophyc layout equals wire rules and runtime statics',
              'Builtin size tables agree; stiffness is a join (never below any part) decided by finite predicate '
              'abstraction of calc_wire_stiffness; encoded_byte_size published only under FIXED; optional and union size '
@@ -58,7 +58,7 @@ PROPS = {
              'arrays clamped with the same min() in counter and data; only get_byte_size() sizes the vector in '
              'message::encode and nothing else allocates on the encode path; nearest<N> is a consistent round-up idiom.',
              'equality of get_byte_size() and bytes written for all values',
-             'generator ladder comparison over an abstract member domain, marker-range guard evaluation, clang AST who-allocates rule'),
+             'generator ladder comparison over an abstract member domain, marker-range guard evaluation, clang AST who-allocates rule', claimed=True),
     'C06': P('Python decode is total (ProphyError only)',
              'Interprocedural exception-escape analysis from struct.decode/union.decode: only ProphyError may escape; '
              'every struct.unpack / slice / consumed-size report is dominated by an exact remaining-length guard '
